@@ -8,7 +8,7 @@ import HawkModel.Drv.Util
   cmd    := a1,a2,neg,op[,arg]*        (fields joined by ",")
   addr   := "-" | "L"<n> | "$" | "R"<string>          ("R_" = the empty regex)
   op     := lab,<string> | { | } | b,<string>|- | t,<string>|- | q d D = p P l h H g G x n N
-          | a,<string> | i,<string> | c,<string> | w,<string>
+          | a,<string> | i,<string> | c,<string> | w,<string> | r,<file string>,<content string>|-
           | s,<re>,<rpl>,<g 0|1>,<occ>,<p 0|1>,<file string>|-
           | y,<from string>,<to string>
   result := ok|err|fuel|comperr <out string> <unspec string> <hold string> [<file string>=<content string>]*
@@ -155,6 +155,7 @@ def decSOp : List String → Option SOp
   | ["i", t] => some (.op (.insert (decStr t)))
   | ["c", t] => some (.op (.change (decStr t)))
   | ["w", f] => some (.op (.wfile (decStr f)))
+  | ["r", f, c] => some (.op (.readFile (decStr f) (decOpt c)))
   | ["s", re, rpl, g, occ, p, w] =>
     some (.op (.subst (decStr re) (decStr rpl) (g == "1") (occ.toNat?.getD 0) (p == "1") (decOpt w)))
   | ["y", a, b] => some (.op (.trans ((decStr a).zip (decStr b))))
